@@ -294,7 +294,8 @@ func (mon monC03) AtEnd(x *Exec) {
 	}
 }
 
-// FamilyTol: the C03 grid: 2-5 sequences, every placement of 1-3 failing sequences, t in {-1,0,1,2}, c in {1,2,3}.
+// FamilyTol: the C03 grid: 2-5 sequences, every placement of 1-3 failing sequences, t in {-1,0,1,2} (and -2, MinInt32
+// for up to 3 sequences), c in {1,2,3}.
 func FamilyTol(tier string) []*Scenario {
 	var out []*Scenario
 	maxSeq := 4
@@ -312,9 +313,9 @@ func FamilyTol(tier string) []*Scenario {
 			if nf > 3 {
 				continue
 			}
-			for _, tol := range []int{-1, 0, 1, 2} {
-				if tol >= nseq {
-					continue
+			for _, tol := range []int{-1, 0, 1, 2, -2, -2147483648} {
+				if tol >= nseq || (tol < -1 && nseq > 3) {
+					continue // "a negative value allows all": values other than -1 on the small grids
 				}
 				for _, conc := range []int{1, 2, 3} {
 					if conc > nseq {
@@ -344,7 +345,7 @@ func init() {
 	register(&PropDef{
 		ID:    "C03",
 		Level: "model_checking",
-		Rule: "family F-tol (2-4(5) sequences, every placement of 1-3 failing sequences, t in {-1,0,1,2}, c in {1,2,3}, followed by a second block), F-chk and sharp scenarios; " +
+		Rule: "family F-tol (2-4(5) sequences, every placement of 1-3 failing sequences, t in {-1,0,1,2} and, up to 3 sequences, the other negative values -2 and MinInt32, c in {1,2,3}, followed by a second block), F-chk and sharp scenarios; " +
 			"every order of visible operations within the deviation bound; state predicates over the event log (which sequences ended, which were started) and the final stored plan; " +
 			"distinct_nontrivial = distinct states in which two or more logical threads were enabled",
 		Assumptions: []string{"a free worker-pool runner always exists (64 runners)", "I/O granularity", "a block interrupted by a plan-level continuous-check failure is exempt from 'Failed exactly when' (the statement is silent on aborted blocks)"},
@@ -362,6 +363,10 @@ func init() {
 				items = append(items, explore("C03", sc, b-1+0, true))
 			}
 			for _, sc := range FamilySharp(tier) {
+				if sc.Name == "sharp-launch-tol-c3" && tier != "thorough" {
+					items = append(items, explore("C03", sc, b, true)) // five sequences, c=3: bound 2 does not finish within the quick cap
+					continue
+				}
 				items = append(items, explore("C03", sc, b+1, true))
 			}
 			// the tolerance across a crash: every durable state of the failing-sequence scenarios is a crash point
